@@ -14,6 +14,7 @@
 From Coq Require Import ZArith Bool List.
 From TF Require Import Word BFieldGen BField XField FieldOps FieldTheory PolyGen PolyCore PolySpec Ntt PolyDiv
   PolyCoreProofs Dft NttDft PolyDivProofs BFieldOk BFieldProofs PolyValueSem PolyDeepenDiv PolyDeepenNewton.
+From TF Require Import XFieldProofs XFieldOk XFieldNtt XFieldPoly PolyDeepenXfe.
 Import ListNotations.
 Open Scope Z_scope.
 
@@ -105,3 +106,14 @@ Theorem C09_bfe_reduce_by_ntt_friendly_modulus : forall chk a Sp shift_ntt tail 
             exists k, peq fp_field (map bden a) (padd fp_field (pmul fp_field k (padd fp_field (map bden Sp) (pXn fp_field (2 ^ l)))) (map bden r)).
 Proof. exact bfe_reduce_by_ntt_friendly_modulus_spec. Qed.
 Print Assumptions C09_bfe_reduce_by_ntt_friendly_modulus.
+
+(* ---------------------------------------------------------------- Polynomial<XFieldElement>: Newton inversion, nothing assumed *)
+Theorem C09_xfe_root_table_squares : forall l, (S l <= 31)%nat -> kmul k3_field (wr_x (S l)) (wr_x (S l)) = wr_x l.
+Proof. exact xfe_wr_sq. Qed.
+Print Assumptions C09_xfe_root_table_squares.
+Theorem C09_xfe_fpsi_newton : forall l n, Forall canon3 l -> 0 <= n -> n * Z.max 1 (poly_degree xfe_ops l) <= 2 ^ 29 ->
+  (exists c0 cs, l = c0 :: cs /\ denX c0 <> k0 k3_field) ->
+  exists g, pdiv_fpsi_newton xfe_ops ntt_x intt_x l n = Some g /\ Forall canon3 g /\
+            pmodx k3_field (Z.to_nat n) (pmul k3_field (map denX l) (map denX g)) (pone k3_field).
+Proof. exact xfe_fpsi_newton. Qed.
+Print Assumptions C09_xfe_fpsi_newton.
